@@ -26,6 +26,7 @@ from .c03 import RM, RE, BRL
 READT = RE + 'RE'
 HCMAKE = '<regular_expressions::RE as store::HashConsed>::make'
 SMAKE = 'store::Store::<T>::make'
+SRE = 'smt_regular_expressions::'
 
 
 def run(ctx):
@@ -33,6 +34,9 @@ def run(ctx):
     guarded(ctx, 'C07.R2', 'C07.R2/identity', r2_identity)
     guarded(ctx, 'C07.R3', 'C07.R3/complement', r34_pairing)
     guarded(ctx, 'C07.R5', 'C07.R5/canonical-order', r5_order)
+    guarded(ctx, 'C07.R7', 'C07.R7/who-may-call', r7_who_may_call)
+    from . import c01
+    guarded(ctx, 'C01.R5', 'C01.R5/wrappers', c01.r5_wrappers)
 
 
 def run_thorough(ctx):
@@ -292,3 +296,53 @@ def r6_witnesses(ctx):
         (ctx.ok if okall else ctx.violation)('C07.R6', 'C07.R6/witness/all-witnesses-hold', None, None, {'tail': out[-600:]}, None)
     finally:
         shutil.rmtree(td, ignore_errors=True)
+
+
+def r7_who_may_call(ctx):
+    """R7 - who may call.  (a) The id pairing (a term and its complement sit at ids 2k, 2k+1) is read through id_to_re by
+    complement (id ^ 1) and make (Complement key -> id + 1) only; any other caller computes a partner id on its own and
+    is right only for one parity.  (b) Library code creates a manager only in the thread-local MANAGER initialiser and
+    in Default::default (which must be new()); a term built with another manager is unrelated to every term the caller
+    can hold (ids collide, structural sharing is lost).  (c) id2re is indexed only by id_to_re."""
+    allowed_id = {RM + 'complement', RM + 'make'}
+    for cfg in ('dev', 'rel'):
+        cr = ctx.crate(cfg)
+        callers_id, callers_new, callers_default, indexers = set(), set(), set(), set()
+        for f in cr.nontest_fns():
+            for bb, c, args, dest, tgt, line, exp in f.calls():
+                nm = c.get('resolved') or c.get('callee') or ''
+                if nm == RM + 'id_to_re':
+                    callers_id.add(f.path)
+                if nm == RM + 'new':
+                    callers_new.add(f.path)
+                if nm == '<regular_expressions::ReManager as std::default::Default>::default':
+                    callers_default.add(f.path)
+            for b in f.blocks:
+                for st in b['stmts']:
+                    txt = repr(st)
+                    if "'id2re'" in txt and ("'index'" in txt or "'cindex'" in txt):
+                        indexers.add(f.path)
+                t = b['term']
+                if t[0] == 'call':
+                    nm = t[1].get('resolved') or t[1].get('callee') or ''
+                    if ('Index' in nm or nm.endswith('::get') or nm.endswith('get_unchecked')) and "'id2re'" in repr(f.blocks) and f.path != RM + 'id_to_re':
+                        # an Index call in a function that also mentions id2re: resolve precisely
+                        a0 = t[2][0] if t[2] else None
+                        if a0 and a0[0] in ('move', 'copy'):
+                            l = a0[1]['l']
+                            for b2 in f.blocks:
+                                for s2 in b2['stmts']:
+                                    if s2[0] == 'assign' and s2[1]['l'] == l and "'id2re'" in repr(s2[2]):
+                                        indexers.add(f.path)
+        ok = callers_id == allowed_id
+        ctx.obligation(ok)
+        (ctx.ok if ok else ctx.violation)('C07.R7', 'C07.R7/id_to_re/called-only-by-complement-and-make', RM + 'id_to_re', None, {'callers': sorted(callers_id), 'unexpected': sorted(callers_id - allowed_id), 'missing': sorted(allowed_id - callers_id)}, cfg)
+        init = {p_ for p_ in callers_new if p_.startswith(SRE + 'MANAGER')}
+        extra = callers_new - init - {'<regular_expressions::ReManager as std::default::Default>::default'}
+        ok = bool(init) and not extra and not callers_default
+        ctx.obligation(ok)
+        (ctx.ok if ok else ctx.violation)('C07.R7', 'C07.R7/ReManager::new/library-creates-a-manager-only-for-MANAGER', RM + 'new', None,
+                                          {'callers_of_new': sorted(callers_new), 'callers_of_default': sorted(callers_default), 'unexpected': sorted(extra | callers_default)}, cfg)
+        ok = indexers <= {RM + 'id_to_re'}
+        ctx.obligation(ok)
+        (ctx.ok if ok else ctx.violation)('C07.R7', 'C07.R7/id2re/indexed-only-by-id_to_re', RM + 'id_to_re', None, {'indexers': sorted(indexers)}, cfg)
